@@ -339,6 +339,27 @@ impl Domain for NodeDomain {
                         }
                         tokio::time::sleep(Duration::from_millis(100)).await;
                     }
+                    // phase 2: every clock's logical time is now pinned at the registered stamp's (the wall clocks are a minute behind), so
+                    // stamps only differ in their COUNTER.  Node 1 issues a few thousand stamps; its gossip carries them; the others
+                    // must get past the last one too (a remote stamp with the receiver's own time part and a higher counter).
+                    if behind.is_empty() {
+                        let mut s0 = far;
+                        for _ in 0..3000 {
+                            s0 = nodes[0].clock().get_time().await;
+                        }
+                        for _ in 0..80 {
+                            behind.clear();
+                            for (j, node) in nodes.iter().enumerate().skip(1) {
+                                if node.clock().get_time().await <= s0 {
+                                    behind.push(format!("node{}-counter", j + 1));
+                                }
+                            }
+                            if behind.is_empty() {
+                                break;
+                            }
+                            tokio::time::sleep(Duration::from_millis(100)).await;
+                        }
+                    }
                     for node in nodes {
                         node.shutdown().await;
                     }
